@@ -52,6 +52,23 @@ func newEnv() *env {
 	eventbus.RegisterUpcastFunc(e.bus, "old", "new", func(d json.RawMessage) (json.RawMessage, string, error) { return d, "new", nil })
 	e.ms.Append(context.Background(), &eventbus.Event{Type: "old", Data: json.RawMessage(`{}`), Timestamp: time.Unix(1, 0)})
 	bp.Types[0].Pub(e.bus, 1)
+	// a little history, so that the objects the tasks share are not pristine: a stream the
+	// consumer abandoned, a stream and a replay whose context was cancelled mid-way (whatever
+	// a store recycles on those paths is then in the state it leaves them in)
+	for range e.ms.ReadStream(context.Background(), eventbus.OffsetOldest) {
+		break
+	}
+	cctx, cancel := context.WithCancel(context.Background())
+	for _, err := range e.ms.ReadStream(cctx, eventbus.OffsetOldest) {
+		if err != nil {
+			break
+		}
+		cancel()
+	}
+	cancel()
+	cctx2, cancel2 := context.WithCancel(context.Background())
+	e.bus.Replay(cctx2, eventbus.OffsetOldest, func(*eventbus.StoredEvent) error { cancel2(); return nil })
+	cancel2()
 	e.sstore = state.NewMemoryStore[User]()
 	e.coll = state.NewTypedCollection[User](e.sstore)
 	e.mat = state.NewMaterializer()
@@ -359,6 +376,12 @@ func (r *reInst) Body() {
 	T[0].Sub(bus, 0, evt.SubOpts{})
 	T[1].Sub(bus, 0, evt.SubOpts{})
 	T[2].Sub(bus, 0, evt.SubOpts{})
+	if strings.Contains(r.pos, "sequential") {
+		// the other event types have Sequential handlers of their own: a Sequential handler
+		// that publishes to a *different* Sequential handler is ordinary use
+		T[1].SubCustom(bus, func(context.Context, int) {}, nil, evt.SubOpts{Sequential: true})
+		T[2].SubCustom(bus, func(context.Context, int) {}, nil, evt.SubOpts{Sequential: true})
+	}
 	body := func(ctx context.Context, id int) { callback() }
 	switch r.pos {
 	case "handler":
